@@ -1035,6 +1035,7 @@ func init() {
 		registerReplay("C10/fids", runFidCase)
 		registerReplay("C10/stale-completion", runStaleCase)
 		registerReplay("C10/pool", runPoolCase)
+		registerReplay("C10/concurrent-close", runConcCloseCase)
 	})
 }
 
@@ -1197,5 +1198,23 @@ func TestC10(t *testing.T) {
 		h.Danger("fids", "client-panic", clientDied, c)
 		defer h.Safe()
 		return runFidCase(c)
+	})
+	// one File released by several goroutines at once, then new Files bound
+	rapidCases(h, "concurrent-close", env.PerShard(env.Pick(640, 32000)), func(rt *rapid.T) concCloseCase {
+		var c concCloseCase
+		for i := rapid.IntRange(1, 4).Draw(rt, "rounds"); i > 0; i-- {
+			r := concCloseRound{SecondOK: rapid.Bool().Draw(rt, "second_ok"), Walks: rapid.IntRange(0, 3).Draw(rt, "walks")}
+			for j := rapid.IntRange(2, 4).Draw(rt, "callers"); j > 0; j-- {
+				r.Callers = append(r.Callers, rapid.SampledFrom([]string{"close", "close", "close", "remove"}).Draw(rt, "caller"))
+			}
+			c.Rounds = append(c.Rounds, r)
+		}
+		return c
+	}, func(c concCloseCase) *fail {
+		h.Case(evid.HashJSON(c), true, "concurrent-close")
+		if h.WantSample("concurrent-close") {
+			h.Sample("concurrent-close", c)
+		}
+		return runConcCloseCase(c)
 	})
 }
